@@ -159,6 +159,39 @@ func symxC01B() {
 	raws[0], raws[1] = []byte(fixedFilters[fa]), []byte(fixedFilters[fb])
 	filters[0], filters[1] = symxLevels(raws[0]), symxLevels(raws[1])
 	var active [2][2]bool // session x filter
+	all := 0
+	// the recipients of every topic are resolved after every operation, not only at the end: what an
+	// earlier resolution (an earlier publish on the same topic) saw must not stick
+	check := func() {
+		all = 0
+		for s := 0; s < 2; s++ {
+			for f := 0; f < 2; f++ {
+				if active[s][f] {
+					all++
+				}
+			}
+		}
+		rt.Assert(len(n.st.Subscriptions().All()) == all, "C01.history.listing_is_the_active_set")
+		for _, ts := range fixedTopics {
+			topic := symxLevels([]byte(ts))
+			got := n.st.Subscriptions().ByPattern(append([]byte("m/"), ts...))
+			for s := 0; s < 2; s++ {
+				want, have := 0, 0
+				for f := 0; f < 2; f++ {
+					if active[s][f] && symxMqttMatch(filters[f], topic) {
+						want++
+					}
+				}
+				for _, g := range got {
+					if g.SessionID == sessions[s] {
+						have++
+					}
+				}
+				rt.Assert(want == have, "C01.history.recipients_depend_only_on_active_set")
+			}
+		}
+	}
+	check()
 	for step := 0; step < ops; step++ {
 		symxNow++
 		s, f := int(rt.Int("sess", 0, 1)), int(rt.Int("fidx", 0, 1))
@@ -169,33 +202,7 @@ func symxC01B() {
 			n.st.Subscriptions().Delete(sessions[s], append([]byte("m/"), raws[f]...))
 			active[s][f] = false
 		}
-	}
-	all := 0
-	for s := 0; s < 2; s++ {
-		for f := 0; f < 2; f++ {
-			if active[s][f] {
-				all++
-			}
-		}
-	}
-	rt.Assert(len(n.st.Subscriptions().All()) == all, "C01.history.listing_is_the_active_set")
-	for _, ts := range fixedTopics {
-		topic := symxLevels([]byte(ts))
-		got := n.st.Subscriptions().ByPattern(append([]byte("m/"), ts...))
-		for s := 0; s < 2; s++ {
-			want, have := 0, 0
-			for f := 0; f < 2; f++ {
-				if active[s][f] && symxMqttMatch(filters[f], topic) {
-					want++
-				}
-			}
-			for _, g := range got {
-				if g.SessionID == sessions[s] {
-					have++
-				}
-			}
-			rt.Assert(want == have, "C01.history.recipients_depend_only_on_active_set")
-		}
+		check()
 	}
 	rt.Cover(all == 0 && ops >= 2, "C01.history.everything_unsubscribed_again")
 }
